@@ -5,7 +5,7 @@ through the API (containers, transfers, solutions built from them are equal); ma
 mutation families must be rejected by the parsers and by every entry point."""
 from __future__ import annotations
 
-from .common import shard, run_cases, BASE_ASSUMPTIONS
+from .common import under_display_configs, shard, run_cases, BASE_ASSUMPTIONS
 
 ID = 'C14'
 LEVEL = 'exploration'
@@ -44,8 +44,8 @@ def required_buckets(tier):
 
 def plan(tier, seed):
     if tier == 'quick':
-        return shard('tables', 8, 8) + shard('api', 120, 8)
-    return shard('tables', 96, 24) + shard('api', 3000, 24)
+        return shard('tables', 8, 8) + shard('api', 120, 8) + under_display_configs(shard('tables', 2, 2) + shard('api', 40, 2))
+    return shard('tables', 96, 24) + shard('api', 3000, 24) + under_display_configs(shard('tables', 8, 4) + shard('api', 300, 8))
 
 
 def run_job(job):
@@ -198,7 +198,7 @@ def api(rng, case, idx):
     C = pp.Container
     subs = make_substances(rng, 5)
     liq = rng.choice(liquids(subs))
-    solids = [s for s in subs if s.is_solid()] or [pp.Substance.solid('NaCl', 58.4428)]
+    solids = [s for s in subs if s.is_solid() and s.mol_weight < 1000] or [pp.Substance.solid('NaCl', 58.4428)]     # (1 M of a macromolecule does not exist)
     q = R.cfg().q
 
     def spellings(value, base):
@@ -258,6 +258,16 @@ def api(rng, case, idx):
             good = [r for s, r in outs if not isinstance(r, Exception)]
             if (0 < len(good) < len(outs)) or any(same(good[0], g, 2.0) for g in good[1:]):
                 M.violate(['C14'], 'PARSE', 'C14:equivalent_quantities_transfer_differently', {'spellings': [s for s, r in outs]})
+            # ... and each string means what SI says: the destination receives v x (prefix factor) of the base unit
+            for s_, r_ in outs:
+                if isinstance(r_, Exception):
+                    continue
+                got_ = R.measure(r_.contents, base)
+                M.count('PARSE.api_meaning')
+                if abs(got_ - vv) > 1e-7 * abs(vv) + 1e-12:
+                    M.violate(['C14'], 'PARSE', f'C14:transferred_amount_ne_what_the_string_says:{base}',
+                              {'string': s_, 'says_base_units': vv, 'destination_received_base_units': got_})
+                    break
             fills = []
             tgt = R.measure(src.contents, base) * 1.5
             for s in spellings(tgt, base):
